@@ -20,6 +20,12 @@ pub struct ScrollCase {
     pub top: u16,
     pub bottom: u16,
     pub offset: u16,
+    /// Some(n): through the real SpiInterface with an n-byte staging buffer (commands longer than the buffer)
+    #[serde(default)]
+    pub spi_buf: Option<u8>,
+    /// use the full framebuffer as display size (otherwise a 16x16 window)
+    #[serde(default)]
+    pub full_size: bool,
 }
 
 /// the scroll-area oracle, in u32
@@ -41,12 +47,18 @@ fn judge(rows: u32, top: u16, bottom: u16, tfa: u16, vsa: u16, bfa: u16) -> Resu
 }
 
 pub fn check(c: &ScrollCase, info: &mut CaseInfo) -> Result<(), String> {
-    let mut cfg = Config::full(c.model, Transport::Rec8);
+    let transport = match c.spi_buf {
+        Some(n) if crate::gen::supported(c.model, Kind::Serial) => Transport::Spi { buf: (n as u16).max((c.model.bits() as u16 + 7) / 8) },
+        _ => Transport::Rec8,
+    };
+    let mut cfg = Config::full(c.model, transport);
     cfg.orient = c.orient;
     let (fw, fh) = c.model.fb();
-    // huge models: small window (irrelevant for scrolling)
-    cfg.w = fw.min(16);
-    cfg.h = fh.min(16);
+    // the display size is irrelevant for scrolling (the region is relative to the framebuffer)
+    if !(c.full_size && (fw as u32 * fh as u32) < (1 << 22)) {
+        cfg.w = fw.min(16);
+        cfg.h = fh.min(16);
+    }
     let w = new_world(&cfg);
     let mut d = build(&cfg, &w).map_err(|e| format!("init failed: {:?}", e))?;
     w.borrow_mut().panel.take_trace();
@@ -77,6 +89,25 @@ pub fn check(c: &ScrollCase, info: &mut CaseInfo) -> Result<(), String> {
     match &trace[..] {
         [Tr::Cmd { op: 0x37, args, .. }] if args[..] == c.offset.to_be_bytes() => {}
         t => return Err(format!("set_vertical_scroll_offset({}) sent {:?}", c.offset, t)),
+    }
+    // every call sends its command: the same offset again, after a new region, and a different one
+    for (i, off) in [c.offset, c.offset, c.offset ^ 0x0100].into_iter().enumerate() {
+        if i == 1 {
+            d.set_vertical_scroll_region(c.bottom, c.top).map_err(|e| format!("set_vertical_scroll_region returned {:?}", e))?;
+            w.borrow_mut().panel.take_trace();
+        }
+        d.set_vertical_scroll_offset(off).map_err(|e| format!("set_vertical_scroll_offset returned {:?}", e))?;
+        let trace = w.borrow_mut().panel.take_trace();
+        match &trace[..] {
+            [Tr::Cmd { op: 0x37, args, .. }] if args[..] == off.to_be_bytes() => {}
+            t => return Err(format!("repeated call #{}: set_vertical_scroll_offset({}) sent {:?}", i + 2, off, t)),
+        }
+    }
+    if let Some(e) = w.borrow_mut().panel.take_errors().first() {
+        return Err(format!("malformed traffic: {}", e));
+    }
+    if c.spi_buf.is_some() {
+        info.label("spi-small-buffer");
     }
     let s = c.top as u32 + c.bottom as u32;
     if s + 1 >= rows && s <= rows + 1 {
@@ -117,9 +148,9 @@ pub fn strategy() -> BoxedStrategy<ScrollCase> {
     proptest::sample::select(MODELS.to_vec())
         .prop_flat_map(|model| {
             let rows = model.fb().1;
-            (Just(model), crate::gen::orient(), biased(rows), biased(rows), any::<u16>(), 0u8..6, -2i64..=2)
+            (Just(model), crate::gen::orient(), biased(rows), biased(rows), any::<u16>(), 0u8..6, -2i64..=2, proptest::option::weighted(0.25, 2u8..=9), any::<bool>())
         })
-        .prop_map(|(model, orient, top, b0, offset, mode, d)| {
+        .prop_map(|(model, orient, top, b0, offset, mode, d, spi_buf, full_size)| {
             let rows = model.fb().1 as i64;
             // make top+bottom land on rows+d or on 65536+d in a third of the cases
             let bottom = match mode {
@@ -127,7 +158,7 @@ pub fn strategy() -> BoxedStrategy<ScrollCase> {
                 2 => (65536 - top as i64 + d).clamp(0, 65535) as u16,
                 _ => b0,
             };
-            ScrollCase { model, orient, top, bottom, offset }
+            ScrollCase { model, orient, top, bottom, offset, spi_buf, full_size }
         })
         .boxed()
 }
@@ -149,7 +180,7 @@ fn grid() -> Vec<ScrollCase> {
         vals.dedup();
         for &t in &vals {
             for &b in &vals {
-                out.push(ScrollCase { model, orient: Orient::ALL[(t as usize + b as usize) % 8], top: t, bottom: b, offset: t ^ b.rotate_left(3) });
+                out.push(ScrollCase { model, orient: Orient::ALL[(t as usize + b as usize) % 8], top: t, bottom: b, offset: t ^ b.rotate_left(3), spi_buf: if (t ^ b) % 5 == 0 { Some(2 + (t % 6) as u8) } else { None }, full_size: (t + b) % 3 == 0 });
             }
         }
     }
@@ -293,7 +324,7 @@ pub fn run(ctx: &Ctx) -> Report {
                     if !ok && sec.violations.is_empty() {
                         sec.violations.push(Violation {
                             reason: format!("set_vertical_scroll_offset({}) sent {:?} / returned {:?}", off, tr, r),
-                            case: serde_json::to_value(ScrollCase { model: ModelId::ST7789, orient: Orient::ALL[0], top: 0, bottom: 0, offset: off }).unwrap(),
+                            case: serde_json::to_value(ScrollCase { model: ModelId::ST7789, orient: Orient::ALL[0], top: 0, bottom: 0, offset: off, spi_buf: None, full_size: false }).unwrap(),
                             signature: "c16:offset".into(),
                         });
                     }
@@ -354,7 +385,7 @@ pub fn run(ctx: &Ctx) -> Report {
             if sec.violations.len() < 3 {
                 sec.violations.push(Violation {
                     reason: why,
-                    case: serde_json::to_value(ScrollCase { model: m, orient: Orient::ALL[0], top: t, bottom: b, offset: 0 }).unwrap(),
+                    case: serde_json::to_value(ScrollCase { model: m, orient: Orient::ALL[0], top: t, bottom: b, offset: 0, spi_buf: None, full_size: false }).unwrap(),
                     signature: "c16:sweep".into(),
                 });
             }
